@@ -34,3 +34,19 @@ type List struct {
 	V    int
 	Next *List
 }
+
+// PNode is recursive through a pointer and holds components whose zero value
+// is ill-formed: an enum without a zero constant and a union.
+type PNode struct {
+	Rank Rank
+	Of   Expr
+	Next *PNode
+}
+
+type Rank int
+
+const (
+	First Rank = iota + 1
+	Second
+	Third
+)
